@@ -49,11 +49,12 @@ func buildLoadFunc(noPreempt bool, item LoadOneItem, textSize uint32, entryOff u
 		fn.PcUnsafePoint = &Pcdata{
 			{PC: textSize, Val: PCDATA_UnsafePointUnsafe},
 		}
-	} else {
-		fn.PcUnsafePoint = &Pcdata{
-			{PC: textSize, Val: PCDATA_UnsafePointSafe},
-		}
 	}
+	// Otherwise no table at all: the runtime reads a missing table (offset 0) as
+	// PCDATA_UnsafePointSafe (-1) at every pc. A table whose only value is -1 - the value
+	// every pc-value table starts from - is marshalled to the bare terminator, and the
+	// runtime's reader runs past it ("invalid runtime symbol table" on the first
+	// asynchronous preemption inside the loaded function).
 
 	// NOTICE: suppose the function has only one stack map at index 0
 	fn.PcStackMapIndex = &Pcdata{
